@@ -4,6 +4,7 @@
 #   gen/SrcFrontSimple.v  SrcFrontFuzz.v  SrcFrontTest.v  SrcFrontEtc.v   (the shipped string
 #       front-ends, read below $RS2COQ_SRC/..; a missing one only yields OMITTED comments)
 #   gen/SrcStackVec.v   (the unsafe vector back-end stackvec.rs over the cells of model/RawVec.v)
+#   gen/SrcHeapVec.v    (the wrappers of heapvec.rs over the std `Vec` primitives of model/SrcLibHeap.v)
 #
 #   tools/rs2coq/run.sh [OUT_DIR]       translate $RS2COQ_SRC (default /repo/src) into OUT_DIR
 #                                       (default: $RS2COQ_OUT_DIR, else /verif/coq/gen)
@@ -64,7 +65,7 @@ if [ -n "${RS2COQ_OUT:-}" ] && [ $# -eq 0 ]; then
   exit 0
 fi
 
-FILES="Src.v SrcBigint.v SrcSlow.v SrcParse.v SrcFrontSimple.v SrcFrontFuzz.v SrcFrontTest.v SrcFrontEtc.v SrcStackVec.v"
+FILES="Src.v SrcBigint.v SrcSlow.v SrcParse.v SrcFrontSimple.v SrcFrontFuzz.v SrcFrontTest.v SrcFrontEtc.v SrcStackVec.v SrcHeapVec.v"
 mkdir -p "$TMP/out"
 timeout 120 "$BIN" "$SRC" "$TMP/out" 2> "$TMP/err"
 rc=$?
